@@ -271,11 +271,11 @@ func c07CSV(c *Ctx, res *types.Named) (encF, decF map[string]bool) {
 	const rCol = "CSV column i is computed from field Fi with the frozen conversion for its type, and the decoder assigns rec[i] to the same Fi through the inverse conversion (sufficient bit size, StdEncoding on both sides), propagating parse errors"
 	encOuter := c.P.Func("lib", "NewCSVEncoder")
 	decOuter := c.P.Func("lib", "NewCSVDecoder")
-	if encOuter == nil || decOuter == nil || len(encOuter.AnonFuncs) != 1 || len(decOuter.AnonFuncs) != 1 {
+	if returnedClosure(encOuter) == nil || returnedClosure(decOuter) == nil {
 		c.Undecided("csv-column:lib", rCol, "NewCSVEncoder/NewCSVDecoder closures not found")
 		return
 	}
-	enc, dec := encOuter.AnonFuncs[0], decOuter.AnonFuncs[0]
+	enc, dec := returnedClosure(encOuter), returnedClosure(decOuter)
 	c.Saw("function " + shortFn(enc))
 	c.Saw("function " + shortFn(dec))
 	stt := res.Underlying().(*types.Struct)
